@@ -74,6 +74,23 @@ func main() {
 		}
 		sort.Strings(ids)
 		fmt.Println(strings.Join(ids, " "))
+	case "funcs":
+		// the declared functions of the tree: the reference list for helper inlining (inline.go)
+		os.Setenv("GVERIF_NOINLINE", "1")
+		l, err := loadRepo(repoDir())
+		if err != nil {
+			fmt.Println("load failed:", err)
+			os.Exit(1)
+		}
+		var ks []string
+		for _, f := range l.Tops {
+			if f.Synthetic == "" {
+				ks = append(ks, funcKey(f))
+			}
+		}
+		sort.Strings(ks)
+		fmt.Println("# declared functions of the reference tree; a function not listed here is inlined into its callers (inline.go)")
+		fmt.Println(strings.Join(ks, "\n"))
 	case "check":
 		if len(rest) != 1 {
 			usage()
